@@ -124,8 +124,16 @@ func (g *gen) random(id int) {
 	m := g.project("init", w.Owner, "init", 0, opInfo{variant: "init"}, snap, bal, bal, false)
 	g.rc.Emit(m, "init", false)
 
+	// reads need a funded read pool: most traces start with one
+	if g.chance(70) {
+		g.do(g.clients[g.r.Intn(3)], "read_pool_lock", map[string]interface{}{}, g.pickU(20000, 200000), opInfo{variant: "lock"})
+	}
 	for i := 0; i < g.a.Steps; i++ {
-		g.maybeAdvance()
+		if i == g.a.Steps-5 && g.chance(45) {
+			g.nextBlock(g.pickI(3600, 4000), g.pickI(1, 8)) // end game after every expiration
+		} else {
+			g.maybeAdvance()
+		}
 		g.step()
 	}
 	w.EndBlock()
@@ -135,16 +143,16 @@ func (g *gen) random(id int) {
 func (g *gen) maybeAdvance() {
 	x := g.r.Intn(100)
 	switch {
-	case x < 45:
+	case x < 50:
 		return
-	case x < 70:
+	case x < 74:
 		g.nextBlock(g.pickI(1, 5, 30), 1)
-	case x < 85:
-		g.nextBlock(g.pickI(120, 600, 900), g.pickI(1, 2, 3))
-	case x < 93:
+	case x < 88:
+		g.nextBlock(g.pickI(60, 300, 600), g.pickI(1, 2, 3))
+	case x < 94:
 		g.nextBlock(g.pickI(5, 60), g.pickI(4, 7, 9)) // lets challenges expire
 	case x < 98:
-		g.nextBlock(g.pickI(1500, 2400, 3100), 1)
+		g.nextBlock(g.pickI(900, 1500, 2400), 1)
 	default:
 		g.nextBlock(g.pickI(3600, 4000, 7300), g.pickI(1, 8)) // past every expiration
 	}
@@ -164,6 +172,12 @@ func (g *gen) step() {
 	}
 	if g.killOK {
 		acts = append(acts, act{6, g.stepKill})
+	}
+	for _, a := range g.openAllocs() {
+		if sa := findAlloc(g.prev, a.id); sa != nil && sa.Expiration <= int64(g.w.Now) {
+			acts = append(acts, act{25, g.stepFinalize})
+			break
+		}
 	}
 	tot := 0
 	for _, a := range acts {
@@ -186,6 +200,12 @@ func (g *gen) stepWrite() {
 	b := g.blobberOf(a)
 	ba := findBA(findAlloc(g.prev, a.id), b.key.ID)
 	size := g.pickI(64*KB, 1*MB, 4*MB, 16*MB, 48*MB, 200*MB)
+	if ba != nil && ba.UsedSize+size > ba.Size && g.chance(85) { // mostly stay within the blobber's share
+		size = g.pickI(64*KB, 1*MB, 3*MB)
+		if free := ba.Size - ba.UsedSize; free > 0 && free < size {
+			size = free
+		}
+	}
 	variant := "upload"
 	if ba != nil && ba.UsedSize > 0 && g.chance(35) {
 		variant = "delete"
@@ -431,6 +451,9 @@ func (g *gen) stepRead() {
 		signer, sigOK, variant = g.clients[3], false, variant+"-wrongsigner"
 	}
 	ts := int64(g.w.Now) - g.pickI(0, 0, 3, 500)
+	if rp := readPoolOf(g.prev, client.ID); rp == 0 && g.chance(60) {
+		g.do(client, "read_pool_lock", map[string]interface{}{}, g.pickU(5000, 200000), opInfo{variant: "lock"})
+	}
 	if g.chance(4) {
 		ts += g.pickI(4000, 8000)
 		variant += "-late"
@@ -442,6 +465,15 @@ func (g *gen) stepRead() {
 	in := g.readMarkerInput(a, b, client, signer, ctr, ts)
 	g.do(from, "read_redeem", in, 0, opInfo{variant: variant, target: a.id, tblob: b.key.ID,
 		rmClient: client.ID, rmBlobber: b.key.ID, rmAlloc: a.id, rmCtr: ctr, rmSig: sigOK})
+}
+
+func readPoolOf(s *storagesc.VerifStorageSnap, client string) uint64 {
+	for _, r := range s.ReadPools {
+		if r.Client == client && r.Present {
+			return r.Balance
+		}
+	}
+	return 0
 }
 
 func (g *gen) stepReadPool() {
@@ -554,7 +586,7 @@ func indexOfA(as []*assigner, a *assigner) int {
 }
 
 func (g *gen) stepHealth() {
-	if g.chance(60) { // everybody
+	if g.chance(35) { // everybody
 		for _, b := range g.blobbers {
 			g.do(b.key, "blobber_health_check", map[string]interface{}{}, 0, opInfo{variant: "all"})
 		}
@@ -620,23 +652,62 @@ func (g *gen) stepStake() {
 }
 
 func (g *gen) stepKill() {
-	// kill (or shut down) a blobber; prefer one that serves an open allocation with data
+	// kill (or shut down) a blobber; prefer one that serves an open allocation
 	var cands []*prov
+	serves := map[string]*allocInfo{}
 	for _, a := range g.openAllocs() {
-		cands = append(cands, g.allocBlobbers(a)...)
+		for _, b := range g.allocBlobbers(a) {
+			cands = append(cands, b)
+			serves[b.key.ID] = a
+		}
 	}
 	if len(cands) == 0 || g.chance(20) {
 		cands = g.blobbers
 	}
 	b := cands[g.r.Intn(len(cands))]
-	switch x := g.r.Intn(100); {
-	case x < 70:
-		g.do(g.w.Owner, "kill_blobber", map[string]interface{}{"provider_id": b.key.ID}, 0, opInfo{variant: "owner", tblob: b.key.ID})
-	case x < 80:
-		g.do(g.clients[2], "kill_blobber", map[string]interface{}{"provider_id": b.key.ID}, 0, opInfo{variant: "stranger", tblob: b.key.ID})
-	default:
-		g.do(b.delegate, "shutdown_blobber", map[string]interface{}{"provider_id": b.key.ID}, 0, opInfo{variant: "delegate", tblob: b.key.ID})
+	// "again" = the blobber is already killed or shut down (the contract then only "refreshes" it)
+	v := func(who string) string {
+		if pb := findBlobber(g.prev, b.key.ID); pb != nil && (pb.Killed || pb.ShutDown) {
+			return "again"
+		}
+		return who
 	}
+	switch x := g.r.Intn(100); {
+	case x < 50:
+		g.do(g.w.Owner, "kill_blobber", map[string]interface{}{"provider_id": b.key.ID}, 0, opInfo{variant: v("owner"), tblob: b.key.ID})
+	case x < 60:
+		g.do(g.clients[2], "kill_blobber", map[string]interface{}{"provider_id": b.key.ID}, 0, opInfo{variant: "stranger", tblob: b.key.ID})
+	case x < 80:
+		g.do(b.delegate, "shutdown_blobber", map[string]interface{}{"provider_id": b.key.ID}, 0, opInfo{variant: v("delegate"), tblob: b.key.ID})
+	case x < 92:
+		g.do(g.w.Owner, "shutdown_blobber", map[string]interface{}{"provider_id": b.key.ID}, 0, opInfo{variant: v("owner"), tblob: b.key.ID})
+	default:
+		g.do(g.clients[2], "shutdown_blobber", map[string]interface{}{"provider_id": b.key.ID}, 0, opInfo{variant: v("stranger"), tblob: b.key.ID})
+	}
+	// the owner of an allocation served by a dead blobber replaces it right away, half of the time
+	if a := serves[b.key.ID]; a != nil && g.chance(50) {
+		if pb := findBlobber(g.prev, b.key.ID); pb != nil && (pb.Killed || pb.ShutDown) {
+			g.replace(a, b)
+		}
+	}
+}
+
+// replace asks the owner to swap blobber rm of allocation a for a live blobber outside the allocation.
+func (g *gen) replace(a *allocInfo, rm *prov) {
+	var out []*prov
+	for _, b := range g.outsideBlobbers(a) {
+		if pb := findBlobber(g.prev, b.key.ID); pb != nil && pb.Present && !pb.Killed && !pb.ShutDown {
+			out = append(out, b)
+		}
+	}
+	if len(out) == 0 {
+		return
+	}
+	// the incoming blobber must be healthy
+	nb := out[g.r.Intn(len(out))]
+	g.do(nb.key, "blobber_health_check", map[string]interface{}{}, 0, opInfo{variant: "one"})
+	in := map[string]interface{}{"id": a.id, "add_blobber_id": nb.key.ID, "remove_blobber_id": rm.key.ID}
+	g.do(g.ownerOf(a), "update_allocation_request", in, g.pickU(0, 500000, 3000000), opInfo{variant: "replace-killed-owner", target: a.id})
 }
 
 var _ = zcommon.Timestamp(0)
